@@ -317,12 +317,14 @@ func anyOK(n *node) bool {
 			}
 		}
 	case 'n':
-		f, err := strconv.ParseFloat(n.s, 64)
-		if err != nil {
+		if _, err := strconv.ParseFloat(n.s, 64); err != nil {
 			return false
 		}
-		if isIntLit(n.s) && math.Abs(f) > maxExact {
-			return false
+		if isIntLit(n.s) {
+			v, err := strconv.ParseInt(n.s, 10, 64)
+			if err != nil || v > maxExact || v < -maxExact {
+				return false
+			}
 		}
 	}
 	return true
@@ -561,6 +563,11 @@ type alt struct {
 type entry struct {
 	desc string
 	alts []alt // alts[0] is the plain reading of the specification
+	// notifErr: for a notification that fails (unknown method / bad params) the
+	// error response a server would send if it wrongly answered notifications;
+	// used only to name that deviation precisely.
+	notifErr string
+	notifWhy string
 }
 
 type expectation struct {
@@ -725,6 +732,9 @@ func classifyEntry(n *node, inBatch bool, lenient *string) entry {
 			}
 			return alt{}
 		})
+		if idClass == idAbsent {
+			e.notifErr, e.notifWhy = errKey(-32601, "null", ""), "unknown-method"
+		}
 	default:
 		v, args := bind(ms, params)
 		switch v {
@@ -738,6 +748,9 @@ func classifyEntry(n *node, inBatch bool, lenient *string) entry {
 				}
 				return alt{}
 			})
+			if idClass == idAbsent {
+				e.notifErr, e.notifWhy = errKey(-32602, "null", ""), "bad-params"
+			}
 		default:
 			ik := invKey(ms.Name, args)
 			add(prefix+":valid:"+ms.Name, func(m mode) alt {
@@ -803,9 +816,11 @@ func classify(in []byte) expectation {
 // ---------------------------------------------------------------- observed output
 
 type obsResp struct {
-	key  string
-	kind string // "result", "E-32601", "app-error"
-	id   string
+	key     string
+	kind    string // "result", "E-32601", "app-error"
+	id      string
+	badID   bool   // id member is neither string, number nor null
+	nullKey string // key with the id read as null (badID only)
 }
 
 // parseOutput checks well-formedness of the bytes a transport returned.
@@ -870,9 +885,7 @@ func parseResp(o *node) (obsResp, string) {
 	if c == 0 {
 		return obsResp{}, "response-without-id"
 	}
-	if id.k != 's' && id.k != 'n' && id.k != 'z' {
-		return obsResp{}, "response-id-type"
-	}
+	badID := id.k != 's' && id.k != 'n' && id.k != 'z'
 	res, cr := o.get("result")
 	er, ce := o.get("error")
 	switch {
@@ -882,8 +895,11 @@ func parseResp(o *node) (obsResp, string) {
 		return obsResp{}, "response-with-neither-result-nor-error"
 	}
 	idc := canonID(id)
+	if badID {
+		idc = "<ill-typed:" + canon(id) + ">"
+	}
 	if cr == 1 {
-		return obsResp{key: resKey(idc, canon(res)), kind: "result", id: idc}, ""
+		return obsResp{key: resKey(idc, canon(res)), kind: "result", id: idc, badID: badID, nullKey: resKey("null", canon(res))}, ""
 	}
 	if er.k != 'o' || er.hasDupKeys() {
 		return obsResp{}, "error-not-an-object"
@@ -912,7 +928,7 @@ func parseResp(o *node) (obsResp, string) {
 	if protoCodes[cv] {
 		kind = fmt.Sprintf("E%d", cv)
 	}
-	return obsResp{key: errKey(cv, idc, dc), kind: kind, id: idc}, ""
+	return obsResp{key: errKey(cv, idc, dc), kind: kind, id: idc, badID: badID, nullKey: errKey(cv, "null", dc)}, ""
 }
 
 func canonCalls(calls []call) ([]string, string) {
@@ -1029,6 +1045,14 @@ func kindOfKey(k string) string {
 	return "?"
 }
 
+func payloadOfKey(k string) string {
+	p := strings.SplitN(k, "|", 3)
+	if len(p) == 3 {
+		return p[2]
+	}
+	return ""
+}
+
 func idOfKey(k string) string {
 	p := strings.SplitN(k, "|", 3)
 	if len(p) >= 2 {
@@ -1047,7 +1071,16 @@ func judgeExecution(ex *expectation, out []byte, calls []call) result {
 	if herr != "" {
 		return result{incon: "harness-args"}
 	}
+	badIDs := 0
+	for _, r := range resps {
+		if r.badID {
+			badIDs++
+		}
+	}
 	if ex.lenient != "" {
+		if badIDs > 0 {
+			return result{class: "ill-typed-id-echoed", detail: "a response carries an id that is neither string, number nor null", lenient: true}
+		}
 		if len(resps) > ex.maxEntries {
 			return result{class: "more-responses-than-requests", detail: fmt.Sprintf("%d responses for %d request entries", len(resps), ex.maxEntries), lenient: true}
 		}
@@ -1070,28 +1103,88 @@ func judgeExecution(ex *expectation, out []byte, calls []call) result {
 	if len(out) > 0 && ex.batch != isArray {
 		return result{class: shapeClass(ex, resps, isArray), detail: "response container does not match the request container"}
 	}
+	ok, over := trySolve(ex, resps, obsInv, false, false)
+	if ok {
+		return result{}
+	}
+	if over {
+		return result{incon: "matching-search-budget"}
+	}
+	// Named deviations: is the execution consistent once exactly this deviation is granted?
+	type hyp struct{ id, notif bool }
+	for _, h := range []hyp{{true, false}, {false, true}, {true, true}} {
+		if h.id && badIDs == 0 {
+			continue
+		}
+		if ok, _ := trySolve(ex, resps, obsInv, h.id, h.notif); !ok {
+			continue
+		}
+		var cls, det []string
+		if h.id {
+			cls = append(cls, "ill-typed-id-echoed")
+			det = append(det, "an Invalid Request response echoes an id that is neither string, number nor null (the specification requires null when the id cannot be determined)")
+		}
+		if h.notif {
+			why := answeredNotifications(ex, resps)
+			cls = append(cls, "notification-answered:"+why)
+			det = append(det, "a notification (request without id) that fails with "+why+" was answered with an error response carrying id null; the specification forbids replying to notifications")
+		}
+		return result{class: strings.Join(cls, "+"), detail: strings.Join(det, "; ") + ". Everything else in this execution is consistent."}
+	}
+	c, d := diagnose(ex, resps, obsInv)
+	return result{class: c, detail: d}
+}
+
+// trySolve runs the joint matching; grantID reads ill-typed response ids as
+// null, grantNotif lets failing notifications be answered with their error.
+func trySolve(ex *expectation, resps []obsResp, obsInv []string, grantID, grantNotif bool) (ok, over bool) {
 	m := &matcher{resp: map[string]int{}, inv: map[string]int{}}
 	for _, r := range resps {
-		m.resp[r.key]++
+		k := r.key
+		if r.badID && grantID {
+			k = r.nullKey
+		}
+		m.resp[k]++
 		m.nresp++
 	}
 	for _, k := range obsInv {
 		m.inv[k]++
 		m.ninv++
 	}
-	// entries with fewest options first
 	ord := make([]entry, len(ex.entries))
 	copy(ord, ex.entries)
+	if grantNotif {
+		for i, e := range ord {
+			if e.notifErr != "" {
+				ord[i].alts = append(append([]alt{}, e.alts...), alt{resp: []string{e.notifErr}})
+			}
+		}
+	}
+	// entries with fewest options first
 	sort.SliceStable(ord, func(a, b int) bool { return optCount(ord[a]) < optCount(ord[b]) })
 	m.entries = ord
-	if m.solve(0) {
-		return result{}
+	ok = m.solve(0)
+	return ok, m.over
+}
+
+func answeredNotifications(ex *expectation, resps []obsResp) string {
+	whys := map[string]bool{}
+	for _, e := range ex.entries {
+		if e.notifErr == "" {
+			continue
+		}
+		for _, r := range resps {
+			if r.key == e.notifErr {
+				whys[e.notifWhy] = true
+			}
+		}
 	}
-	if m.over {
-		return result{incon: "matching-search-budget"}
+	var l []string
+	for w := range whys {
+		l = append(l, w)
 	}
-	cls, det := diagnose(ex, resps, obsInv)
-	return result{class: cls, detail: det}
+	sort.Strings(l)
+	return strings.Join(l, "+")
 }
 
 func optCount(e entry) int {
@@ -1155,10 +1248,8 @@ func diagnose(ex *expectation, resps []obsResp, obsInv []string) (string, string
 		for i, e := range ex.entries {
 			for _, a := range e.alts {
 				for _, k := range a.resp {
-					if kindOfKey(k) == r.kind && idOfKey(k) != r.id {
-						if kindOfKey(k) == r.kind && strings.SplitN(k, "|", 3)[len(strings.SplitN(k, "|", 3))-1] == strings.SplitN(r.key, "|", 3)[len(strings.SplitN(r.key, "|", 3))-1] || r.kind != "result" {
-							return "wrong-id:" + descOf(i) + ":" + r.kind, fmt.Sprintf("response %s carries id %s, the matching request has %s", r.key, r.id, idOfKey(k))
-						}
+					if kindOfKey(k) == r.kind && idOfKey(k) != r.id && payloadOfKey(k) == payloadOfKey(r.key) {
+						return "wrong-id:" + descOf(i) + ":" + r.kind, fmt.Sprintf("response %s carries id %s, the matching request has %s", r.key, r.id, idOfKey(k))
 					}
 				}
 			}
@@ -1189,9 +1280,13 @@ func diagnose(ex *expectation, resps []obsResp, obsInv []string) (string, string
 		}
 	}
 	// 3. required things that are missing
-	respCount := map[string]int{}
+	respCount, respLeft, invLeft := map[string]int{}, map[string]int{}, map[string]int{}
 	for _, r := range resps {
 		respCount[r.key]++
+		respLeft[r.key]++
+	}
+	for k, c := range invCount {
+		invLeft[k] = c
 	}
 	for i, e := range ex.entries {
 		mustRespond, mustInvoke := true, true
@@ -1205,10 +1300,13 @@ func diagnose(ex *expectation, resps []obsResp, obsInv []string) (string, string
 		}
 		if mustRespond {
 			found := false
+		search:
 			for _, a := range e.alts {
 				for _, k := range a.resp {
-					if respCount[k] > 0 {
+					if respLeft[k] > 0 {
+						respLeft[k]--
 						found = true
+						break search
 					}
 				}
 			}
@@ -1216,8 +1314,24 @@ func diagnose(ex *expectation, resps []obsResp, obsInv []string) (string, string
 				return "lost-response:" + descOf(i), fmt.Sprintf("no response for request %d (%s); acceptable: %v", i, e.desc, e.alts[0].resp)
 			}
 		}
-		if mustInvoke && invCount[e.alts[0].inv] == 0 {
-			return "missing-invocation:" + descOf(i), fmt.Sprintf("handler was not run for valid request %d: %s", i, e.alts[0].inv)
+		if mustInvoke {
+			if invLeft[e.alts[0].inv] == 0 {
+				return "missing-invocation:" + descOf(i), fmt.Sprintf("handler was not run for valid request %d: %s", i, e.alts[0].inv)
+			}
+			invLeft[e.alts[0].inv]--
+		}
+	}
+	// a handler-made response whose handler never ran
+	for i, e := range ex.entries {
+		for _, a := range e.alts {
+			if a.inv == "" || invCount[a.inv] > 0 {
+				continue
+			}
+			for _, k := range a.resp {
+				if respCount[k] > 0 && (kindOfKey(k) == "result" || kindOfKey(k) == "app-error") {
+					return "missing-invocation:" + descOf(i), fmt.Sprintf("response %s was produced but the handler invocation %s was not recorded", k, a.inv)
+				}
+			}
 		}
 	}
 	for k, c := range respCount {
@@ -1230,3 +1344,4 @@ func diagnose(ex *expectation, resps []obsResp, obsInv []string) (string, string
 	}
 	return "no-consistent-assignment", "responses and invocations are individually plausible but cannot be assigned one-to-one to the requests"
 }
+
